@@ -211,6 +211,9 @@ def run(tier):
     # (d) the counter reconstruction: sound (only fresh counters) AND complete (every fresh counter) - case analysis
     next_fcnt_down_cases(c, res)
     res.coverage['configs'] = [c.info]
+    # "fits the maximum size of the data rate it was received at": the per-data-rate maxima are the regional ones
+    from . import regional
+    regional.check(c, res, PID, {'payload'})
     res.explanation = __doc__
     res.assumptions += ['rustc MIR construction; SAME-VALUE compares single-assignment definition chains (copies/moves/reborrows)']
     return res
